@@ -83,16 +83,8 @@ fn maker(cfg: &Value) -> Option<Maker> {
             m!($a, $hs, 16, $up, $ga, $de, $sh, $mcs);
         };
     }
-    macro_rules! all_flavours {
-        ($up:literal, $ga:literal, $de:literal, $sh:literal, $mcs:literal) => {
-            all_ma!(ZstA, 32, $up, $ga, $de, $sh, $mcs);
-            all_ma!(PtrA, 48, $up, $ga, $de, $sh, $mcs);
-            all_ma!(BigA, 128, $up, $ga, $de, $sh, $mcs);
-        };
-    }
     // quick tier: a covering subset -- every value of every setting with every base allocator flavour and both
     // directions; keep in sync with QuickTuples in spec/MC_Arena.tla
-    #[cfg(not(feature = "full"))]
     {
         all_ma!(ZstA, 32, true, true, true, true, 0);
         all_ma!(PtrA, 48, false, true, true, true, 0);
@@ -107,40 +99,42 @@ fn maker(cfg: &Value) -> Option<Maker> {
         all_ma!(BigA, 128, true, true, true, true, 512);
         all_ma!(ZstA, 32, false, true, true, false, 0);
     }
+    // thorough tier: every one of the 32 settings combinations (x 5 minimum alignments), each with one base allocator
+    // flavour in rotation, in addition to the quick tuples; keep in sync with FullCfgs in spec/MC_Arena.tla
     #[cfg(feature = "full")]
     {
-        all_flavours!(true, true, true, true, 0);
-        all_flavours!(true, true, true, true, 512);
-        all_flavours!(true, true, true, false, 0);
-        all_flavours!(true, true, true, false, 512);
-        all_flavours!(true, true, false, true, 0);
-        all_flavours!(true, true, false, true, 512);
-        all_flavours!(true, true, false, false, 0);
-        all_flavours!(true, true, false, false, 512);
-        all_flavours!(true, false, true, true, 0);
-        all_flavours!(true, false, true, true, 512);
-        all_flavours!(true, false, true, false, 0);
-        all_flavours!(true, false, true, false, 512);
-        all_flavours!(true, false, false, true, 0);
-        all_flavours!(true, false, false, true, 512);
-        all_flavours!(true, false, false, false, 0);
-        all_flavours!(true, false, false, false, 512);
-        all_flavours!(false, true, true, true, 0);
-        all_flavours!(false, true, true, true, 512);
-        all_flavours!(false, true, true, false, 0);
-        all_flavours!(false, true, true, false, 512);
-        all_flavours!(false, true, false, true, 0);
-        all_flavours!(false, true, false, true, 512);
-        all_flavours!(false, true, false, false, 0);
-        all_flavours!(false, true, false, false, 512);
-        all_flavours!(false, false, true, true, 0);
-        all_flavours!(false, false, true, true, 512);
-        all_flavours!(false, false, true, false, 0);
-        all_flavours!(false, false, true, false, 512);
-        all_flavours!(false, false, false, true, 0);
-        all_flavours!(false, false, false, true, 512);
-        all_flavours!(false, false, false, false, 0);
-        all_flavours!(false, false, false, false, 512);
+        all_ma!(ZstA, 32, true, true, true, true, 0);
+        all_ma!(PtrA, 48, true, true, true, true, 512);
+        all_ma!(PtrA, 48, true, true, true, false, 0);
+        all_ma!(BigA, 128, true, true, true, false, 512);
+        all_ma!(BigA, 128, true, true, false, true, 0);
+        all_ma!(ZstA, 32, true, true, false, true, 512);
+        all_ma!(ZstA, 32, true, true, false, false, 0);
+        all_ma!(PtrA, 48, true, true, false, false, 512);
+        all_ma!(PtrA, 48, true, false, true, true, 0);
+        all_ma!(BigA, 128, true, false, true, true, 512);
+        all_ma!(BigA, 128, true, false, true, false, 0);
+        all_ma!(ZstA, 32, true, false, true, false, 512);
+        all_ma!(ZstA, 32, true, false, false, true, 0);
+        all_ma!(PtrA, 48, true, false, false, true, 512);
+        all_ma!(PtrA, 48, true, false, false, false, 0);
+        all_ma!(BigA, 128, true, false, false, false, 512);
+        all_ma!(BigA, 128, false, true, true, true, 0);
+        all_ma!(ZstA, 32, false, true, true, true, 512);
+        all_ma!(ZstA, 32, false, true, true, false, 0);
+        all_ma!(PtrA, 48, false, true, true, false, 512);
+        all_ma!(PtrA, 48, false, true, false, true, 0);
+        all_ma!(BigA, 128, false, true, false, true, 512);
+        all_ma!(BigA, 128, false, true, false, false, 0);
+        all_ma!(ZstA, 32, false, true, false, false, 512);
+        all_ma!(ZstA, 32, false, false, true, true, 0);
+        all_ma!(PtrA, 48, false, false, true, true, 512);
+        all_ma!(PtrA, 48, false, false, true, false, 0);
+        all_ma!(BigA, 128, false, false, true, false, 512);
+        all_ma!(BigA, 128, false, false, false, true, 0);
+        all_ma!(ZstA, 32, false, false, false, true, 512);
+        all_ma!(ZstA, 32, false, false, false, false, 0);
+        all_ma!(PtrA, 48, false, false, false, false, 512);
     }
     None
 }
